@@ -6,6 +6,7 @@ CONSTANTS
   AllowEmptyBd = FALSE
   WithReps = FALSE
   Mode = "vine"
+  WithHist = TRUE
 VIEW View
 INVARIANT InvWellFormed
 INVARIANT InvPartition
